@@ -295,7 +295,7 @@ func genOne(g *hx.Gen) {
 		g.Stat("oracle-panicked")
 	}
 	// geometry class: the in-place output of an AEAD Open touches the tag bytes of the ciphertext
-	// (not covered by the overlap check, which looks at ciphertext[:len-16] only)
+	// (before /repo 6713907 the overlap check looked at ciphertext[:len-16] only; kept as a regression class)
 	cls := "-"
 	if (f == "open" || f == "openx" || f == "opengen") && dCap >= dLen+outLen && outLen > 0 &&
 		outOff < srcOff+srcLen && srcOff+srcLen-16 < outOff+outLen {
